@@ -84,11 +84,13 @@ class ManifestPathEntry:
         if len(data) != 2:
             raise ManifestSyntaxError(
                 f'{data[0]} line: expects 1 value, got: {data[1:]}')
-        if not data[1] or data[1][0] == '/':
+        path = cls.escape_seq_re.sub(cls.decode_char, data[1])
+        # NB: test the decoded path, the leading slash may be escaped
+        if not path or path[0] == '/':
             raise ManifestSyntaxError(
                 f'{data[0]} line: expected relative path, '
                 f'got: {data[1:]}')
-        return cls.escape_seq_re.sub(cls.decode_char, data[1])
+        return path
 
     @staticmethod
     def encode_char(m):
